@@ -75,6 +75,32 @@ def wrapping(repo, res):
     el = d.get("else", [])
     ok = [norm(s) for s in qa] == ["out_arr = unyt_array(out_arr, unit)"] and [norm(s) for s in el] == ["out_arr = ret_class(out_arr, unit, bypass_validation=True)"] and order.index("out_arr.size == 1") < order.index("issubclass(ret_class, unyt_quantity)")
     res.check(ok, "ufunc:many", fn.where(chain), "for larger results a quantity return class must be replaced by unyt_array (bypass_validation would skip the size check)", rid=r1)
+    # every arm of the wrap-up chain that builds results with the operands' class (`ret_class(...)`): the class is known
+    # not to be a quantity there - either the arm is reached only after `issubclass(ret_class, unyt_quantity)` failed, or
+    # the arm itself replaces a quantity class by unyt_array first.  ret_class is unyt_quantity for ndarray <op> quantity
+    # and quantity <op> array, whatever the shape of the result (divmod(np.arange(3.), 2*m)).
+    seen_q_test = False
+    n_sites = 0
+    for t_, body_ in arms:
+        if t_ == "issubclass(ret_class, unyt_quantity)":
+            seen_q_test = True
+            continue
+        safe = seen_q_test and t_ == "else"
+        for st_ in body_:
+            if isinstance(st_, ast.If) and norm(st_.test) == "issubclass(ret_class, unyt_quantity)" and [norm(x) for x in st_.body] == ["ret_class = unyt_array"] and not st_.orelse:
+                safe = True
+                continue
+            calls_ = [c for c in ast.walk(st_) if isinstance(c, ast.Call) and norm(c.func) == "ret_class"]
+            if not calls_:
+                continue
+            n_sites += 1
+            res.check(safe, f"ufunc:ret-class-not-quantity:{t_[:40]}", fn.where(st_), f"the arm `{t_}` of the wrap-up wraps results in ret_class although ret_class may be unyt_quantity (ndarray <op> quantity, quantity <op> array): a result with more than one element is refused with RuntimeError or, for one element, returned as a quantity", "ret_class replaced by unyt_array when it is a quantity class", norm(st_)[:100], rid=r1)
+            if t_.startswith("ufunc in"):
+                # several outputs (modf, divmod): each 0-d output is a quantity
+                has0d = any(isinstance(x, ast.IfExp) and norm(x.test).endswith(".shape == ()") and isinstance(x.body, ast.Call) and norm(x.body.func) == "unyt_quantity" for x in ast.walk(st_))
+                res.check(has0d, "ufunc:tuple-0-d", fn.where(st_), "each 0-d output of a multi-output ufunc (modf, divmod) with units must become a unyt_quantity", "unyt_quantity(...) if o.shape == () else ...", norm(st_)[:100], rid=r1)
+    if n_sites < 2:
+        raise AnalysisError(f"{fn.where(chain)}: fewer than two ret_class(...) wrapping sites in the wrap-up chain")
     # unyt_quantity.__new__ guard
     q = arr.func("unyt_quantity.__new__")
     res.fn(q)
@@ -244,8 +270,9 @@ def metadata(repo, res):
 
 
 MUTANTS = [
+    Mutant("divmod-trusts-ret-class", ARR, "unyt_array.__array_ufunc__", "            if issubclass(ret_class, unyt_quantity):\n                # as below: avoid creating a unyt_quantity with size > 1\n                ret_class = unyt_array\n", "", ("C16-R1",)),
     Mutant("ufunc-0d-array", ARR, "unyt_array.__array_ufunc__", "out_arr = unyt_quantity(np.asarray(out_arr), unit)", "out_arr = unyt_array(np.asarray(out_arr), unit)", ("C16-R1",)),
-    Mutant("ufunc-quantity-many", ARR, "unyt_array.__array_ufunc__", "            if issubclass(ret_class, unyt_quantity):", "            if False:", ("C16-R1",)),
+    Mutant("ufunc-quantity-many", ARR, "unyt_array.__array_ufunc__", "            if issubclass(ret_class, unyt_quantity):\n                # This happens", "            if False:\n                # This happens", ("C16-R1",)),
     Mutant("quantity-guard-off", ARR, "unyt_quantity.__new__", "        if ret.size > 1:", "        if ret.size > 1 and not bypass_validation:", ("C16-R1",)),
     Mutant("getitem-no-quantity", ARR, "unyt_array.__getitem__", 'if getattr(ret, "shape", None) == ():', 'if getattr(ret, "ndim", None) == 1:', ("C16-R1",)),
     Mutant("unit-mul-always-array", UO, "Unit.__mul__", "            if data.shape == ():", "            if data.shape == (1,):", ("C16-R1",)),
